@@ -56,5 +56,5 @@ proof fn vacuity_pre(l: Map<ColumnName, F64>, u: Map<ColumnName, F64>, n: Column
         assumptions=common.A1,
         not_covered=['the line-oriented text layer (ROWS/COLUMNS/RHS/RANGES/BOUNDS reading, markers, bound keywords FR MI PL BV LI UI, numbers, OBJSENSE, gzip, error reporting): str code outside Verus and CBMC',
                      'convert_dvars / convert_constraints (HashSet/HashMap iteration with enumerate and OMMX_VAR_<n> id recovery)',
-                     'observations recorded in DESIGN: D5b (FR leaves lower bound 0) and D5d (BV column without bounds gets [0,+inf)) are in the uncovered part'],
+                     'the two defects of the text layer found by the bounded stand-in (D5b: FR left the lower bound 0; D5d: a BV column kept the bound [0,+inf)) lie in this uncovered part; both are repaired in /repo (known_findings.txt) and stay covered by the stand-in only'],
     )
